@@ -43,6 +43,8 @@ PROPS = {
         "modules": ["Resolved.Props.C04"],
         "streams": [
             {"name": "wire-encode", "quick": 3000, "thorough": 60000, "extra_quick": [16], "extra_thorough": [400]},
+            # decode -> encode -> decode on arbitrary decodable byte strings (suffix compression, chains)
+            {"name": "wire-decode", "quick": 12000, "thorough": 200000},
             {"name": "tables", "quick": 1, "thorough": 1, "shards": 1, "fixed": True},
         ],
         "trivial_tags": [r":bad-op"],
